@@ -1,5 +1,6 @@
 import Andes.Model.Hex
 import Andes.Model.TdsDriver
+import Andes.Model.PINumericDriver
 import Andes.Model.AssembleDriver
 import Andes.Model.PerUnitDriver
 import Andes.Model.EigDriver
@@ -38,6 +39,7 @@ def handle (line : String) : String :=
   | "eigas" :: args => Andes.Eig.handleAs args | "eigst" :: args => Andes.Eig.handleSt args | "eigpf" :: args => Andes.Eig.handlePf args | "eigam" :: args => Andes.Eig.handleAm args | "eigsw" :: args => Andes.Eig.handleSw args
   | "pu" :: args => Andes.PerUnit.handlePu args | "coef" :: args => Andes.PerUnit.handleCoef args
   | "pfg" :: args => Andes.PFlow.handlePfg args | "pfu" :: args => Andes.PFlow.handlePfu args
+  | "pinum" :: args => Andes.PINumeric.handlePinum args
   | _ => "bad-op"
 
 partial def loop (h : IO.FS.Stream) : IO Unit := do
